@@ -212,6 +212,10 @@ func (s *store) Update(_ context.Context, filter, update any, opts ...UpdateOpti
 		return 0, err
 	}
 
+	if _, err := patch(types.NewMap(), u); err != nil {
+		return 0, err
+	}
+
 	if upsert && len(docs) == 0 {
 		doc, err := types.Cast[types.Map](extract(f))
 		if err != nil {
@@ -349,6 +353,10 @@ func (s *store) Find(_ context.Context, filter any, opts ...FindOptions) (Cursor
 }
 
 func (s *store) find(filter types.Map) ([]types.Map, error) {
+	if err := validate(filter); err != nil {
+		return nil, err
+	}
+
 	plan, err := s.explain(filter)
 	if err != nil {
 		return nil, err
